@@ -245,6 +245,37 @@ fn u_skip_string_unchecked_n8() {
     skip_string_unchecked_body::<8>();
 }
 
+/// C12/C13/C10 U-skip_number_unchecked: on a well-formed number followed by blanks and then a
+/// separator (or the end of the input), the trusting value skipper returns exactly the number's
+/// source span - no blank of what follows belongs to it (F14: `[1 , 2 ]` yielded "1 ") - and
+/// leaves the reader at the end of that span.
+#[kani::proof]
+#[kani::unwind(9)]
+#[kani::stub(crate::error::Error::syntax, crate::error::verif_kani_error::syntax_cut)]
+fn u_skip_number_unchecked_span_n7() {
+    const N: usize = 7;
+    let buf: [u8; N] = kani::any();
+    let n: usize = kani::any();
+    kani::assume(n >= 1 && n <= N);
+    // precondition of the unchecked API: well-formed input
+    let end = ref_number_end(&buf, n, 0);
+    kani::assume(end.is_some());
+    let e = end.unwrap();
+    let after = ref_skip_ws(&buf, n, e);
+    kani::assume(after == n || buf[after] == b',' || buf[after] == b']' || buf[after] == b'}');
+    // skip_one_unchecked has consumed the first character and dispatched on it (the other arms
+    // of that dispatch - containers, strings - are kept out of this harness)
+    let mut p = mk(&buf[..n]);
+    p.read.set_index(1);
+    let r = p.skip_number_unsafe();
+    assert!(r.is_ok());
+    assert_eq!(p.read.index(), e);
+    kani::cover!(after > e && after < n);
+    kani::cover!(e == n);
+    kani::cover!(e >= 3 && after == e && after < n);
+    core::mem::forget(r);
+}
+
 /// C10 U-get_next_token: finds the first occurrence of any token at or after the reader and
 /// leaves the reader `advance` bytes after it; None iff there is none (reader at the end).
 #[kani::proof]
